@@ -26,6 +26,7 @@ Init ==
 NextFees ==
     \/ \E ms \in MemberMenu, off \in ExecOffsets : Propose("authority", ms, 1, off)
     \/ \E g \in Groups : DkgDone(g, TRUE)
+    \/ \E f \in FeeSet : SetFee(f)
     \/ \E p \in Payer \cup {"authority"}, limit \in LimitSet, lx \in {0, 1}, incOK \in BOOLEAN :
           \E S \in ComOrNone(current), SI \in ComOrNone(Incoming) : Request(p, limit, lx, S, incOK, SI)
     \/ \E id \in Sigs : SignAll(id)
